@@ -25,8 +25,21 @@ def sh(cmd):
 
 def summaries(procs):
     sigs, inconc, evals = {}, {}, 0
+    import re
     for p in procs:
-        out, _ = p.communicate()
+        out, err = p.communicate()
+        if "SUMMARY " not in out and p.returncode is not None and p.returncode < 0:
+            # the same rule as the driver (check: crash_report): a library panic that aborts
+            # the process, or a memory fault, is a violation
+            m = re.search(r"panicked at (/repo/|/var/tmp/mut/)([\w/\-\.]+\.rs):\d+", err or "")
+            if p.returncode == -6 and m:
+                k = "?:abort:panic@" + m.group(2)
+                sigs[k] = sigs.get(k, 0) + 1
+            elif p.returncode in (-11, -7, -4):
+                k = f"?:crash:signal{-p.returncode}"
+                sigs[k] = sigs.get(k, 0) + 1
+            else:
+                inconc[f"died with {p.returncode}"] = inconc.get(f"died with {p.returncode}", 0) + 1
         for line in out.splitlines():
             if not line.startswith("SUMMARY "):
                 continue
@@ -49,15 +62,15 @@ def run_job(job):
         for i in range(n):
             argv = [exe, "run", "--profile", job["profile"], "--seed", str(job.get("seed", 11)),
                     "--start", str(job.get("start", 0) + i * per), "--count", str(per)]
-            procs.append(subprocess.Popen(argv, stdout=subprocess.PIPE, stderr=subprocess.DEVNULL, text=True))
+            procs.append(subprocess.Popen(argv, stdout=subprocess.PIPE, stderr=subprocess.PIPE, text=True))
     elif job.get("runner"):
         # vq-sync's own multi-process runner (one scenario+seed per process), from the scratch copy
         tool = job["runner"]
         argv = ["python3", os.path.join(H, "vq-sync", "run_sanitized.py"), "--tool", tool, "--seeds", f"11000..{11000 + job.get('seeds', 16)}",
                 "--scenarios", "all", "--jobs", "12", "--target-dir", T if tool == "native" else f"{T}-{tool}"] + job.get("extra", [])
-        procs.append(subprocess.Popen(argv, stdout=subprocess.PIPE, stderr=subprocess.DEVNULL, text=True))
+        procs.append(subprocess.Popen(argv, stdout=subprocess.PIPE, stderr=subprocess.PIPE, text=True))
     else:
-        procs.append(subprocess.Popen([exe] + job["args"], stdout=subprocess.PIPE, stderr=subprocess.DEVNULL, text=True))
+        procs.append(subprocess.Popen([exe] + job["args"], stdout=subprocess.PIPE, stderr=subprocess.PIPE, text=True))
     return summaries(procs)
 
 
